@@ -123,6 +123,12 @@ Theorem C10_wire_roundtrip : forall v, sendable v ->
 Proof. exact wire_roundtrip. Qed.
 Print Assumptions C10_wire_roundtrip.
 
+(* whatever the wire parser accepts is structurally valid: no source twice in mv, none twice in pv, none in
+   both, cv not repeated in mv (duplicate sources, cv repeated in mv are rejected) *)
+Theorem C10_wire_parse_wellformed : forall str v lg, extract_hlv str = Some (v, lg) -> wire_wf v.
+Proof. exact wire_parse_wellformed. Qed.
+Print Assumptions C10_wire_parse_wellformed.
+
 (* ---- non-vacuity: a concrete clean history with a conflict, a merge, a fast-forward and an
         already-known pull; its vectors satisfy the hypotheses of the theorems above ---- *)
 Example C10_nonvacuous :
